@@ -286,6 +286,12 @@ func (w *World) nonNilOracleMode(onSuccess bool) func(site *ssa.Call, idx int) b
 					}
 					n++
 					if idx >= len(p.Rets) || p.St.NilOf(p.Rets[idx]) != 1 {
+						// a profile read from the register: non-nil by the register
+						// lemma (premise: the only writer invoked it before storing
+						// it; C05 records the premise as an obligation)
+						if idx < len(p.Rets) && w.registerEntryValue(p.Rets[idx].name()) && strings.HasSuffix(avSubject(p.Rets[idx]), ".Profile") && w.registerEntriesNonNil() {
+							continue
+						}
 						ok = false
 					}
 				}
@@ -299,5 +305,80 @@ func (w *World) nonNilOracleMode(onSuccess bool) func(site *ssa.Call, idx int) b
 			}
 		}
 		return true
+	}
+}
+
+// ruleIsEmptyMeansNoEntries: the container's IsEmpty is true exactly when it
+// holds no entries — a predicate of len(values) only. The getters treat
+// IsEmpty as "claim absent", so anything else (ignoring null entries, looking
+// at entry contents) turns a malformed list into an absent one.
+func ruleIsEmptyMeansNoEntries(w *World, r *Recorder, rule string) {
+	n := 0
+	for _, fn := range w.Funcs {
+		if fn.Signature.Recv() == nil || len(fn.TypeArgs()) == 0 || baseName(fn) != "IsEmpty" {
+			continue
+		}
+		if !strings.Contains(fn.Signature.Recv().Type().String(), "SwComponents[") {
+			continue
+		}
+		n++
+		key := fnKey(fn) + "#len"
+		s := w.Summarise(fn)
+		if ok, why := s.Complete(); !ok {
+			r.Refute(rule, key, w.FnPos(fn), "IsEmpty is not a simple predicate of the number of entries: "+why)
+			continue
+		}
+		trueSet, falseSet := iset{}, iset{}
+		why := ""
+		dom := iset{{0, maxI}}
+		for _, p := range s.Paths {
+			if p.Ret == nil || len(p.Rets) != 1 {
+				why = "it walks the entries (a path does not end in a plain boolean result)"
+				break
+			}
+			term := ""
+			set := dom
+			for t, is := range p.St.terms {
+				if strings.HasPrefix(t, "len(") && strings.HasSuffix(t, ".values)") {
+					term, set = t, inter(is, dom)
+				} else {
+					why = "the result depends on " + t
+				}
+			}
+			for a := range p.St.atoms {
+				why = "the result depends on " + a
+			}
+			if len(p.St.events) > 0 {
+				why = "IsEmpty calls " + p.St.events[0].Callee
+			}
+			switch a := p.Rets[0]; a.Kind {
+			case KBool:
+				if a.B {
+					trueSet = union(trueSet, set)
+				} else {
+					falseSet = union(falseSet, set)
+				}
+			case KCmp:
+				if term != "" && a.Term != term || !(strings.HasPrefix(a.Term, "len(") && strings.HasSuffix(a.Term, ".values)")) {
+					why = "the result compares " + a.Term
+				} else {
+					ts := inter(set, cmpSet(a.Op, a.K))
+					trueSet = union(trueSet, ts)
+					falseSet = union(falseSet, minus(set, ts))
+				}
+			default:
+				why = "the result is " + a.name()
+			}
+		}
+		if why != "" {
+			r.Refute(rule, key, w.FnPos(fn), "IsEmpty is not decided by the number of entries alone: "+why)
+			continue
+		}
+		r.Check(trueSet.equal(iset{{0, 0}}) && falseSet.equal(iset{{1, maxI}}), rule, key, w.FnPos(fn),
+			"IsEmpty() ⇔ len(values) = 0",
+			fmt.Sprintf("IsEmpty is true for len(values) ∈ %s and false for %s; the getters read it as 'claim absent', which must mean exactly: no entries", trueSet, falseSet))
+	}
+	if n == 0 {
+		r.Undecide(rule, "IsEmpty", "-", "no IsEmpty method on the component container found")
 	}
 }
